@@ -26,6 +26,8 @@ import (
 	"github.com/rqlite/rqlite/v10/snapshot"
 )
 
+var c38Confirmed = map[string]bool{}
+
 type c38Hist struct {
 	t       *testing.T
 	rep     *vfReport
@@ -220,6 +222,22 @@ func (h *c38Hist) linRead(after string) {
 		h.rep.Count("linread-after:" + after)
 		h.rep.Count("linread-with-last-committed-entry:" + lastTy)
 		h.rep.Case(fmt.Sprintf("%s|%s|%d|%d", strings.Join(types, ","), after, ci, fi), lastTy != "command")
+		if out == "timeout" && !c38Confirmed["linread-timeout:last-committed-entry="+lastTy] {
+			// confirm once per signature with a much longer timeout, so that a stalled machine is not
+			// mistaken for a read that cannot complete
+			_, _, err2 := clu8Query(s, "SELECT COUNT(*) FROM c38", proto.ConsistencyLevel_LINEARIZABLE, 20*time.Second)
+			if !errors.Is(err2, ErrWaitForFSMTimeout) {
+				h.rep.Count("linread-timeout-not-confirmed")
+				out = "unconfirmed"
+			} else {
+				c38Confirmed["linread-timeout:last-committed-entry="+lastTy] = true
+			}
+		}
+		if out == "unconfirmed" {
+			// drop the model line emitted above for this read: nothing can be said
+			h.ops, h.impl = h.ops[:len(h.ops)-1], h.impl[:len(h.impl)-1]
+			return
+		}
 		if out == "timeout" {
 			h.rep.Fail("linread-timeout:last-committed-entry="+lastTy,
 				fmt.Sprintf("healthy leader %s (term %d, strong read done in this term, quorum reachable): linearizable read issued right after `%s` with no further write failed after %s: %v (commit index %d, FSM index %d, log types %v)",
@@ -255,8 +273,22 @@ func (h *c38Hist) node(name string) *clu8Node {
 }
 
 // do performs one generated operation; returns its label ("" = not applicable now).
+// do performs one generated operation, asking again (after re-resolving the leader) when the
+// only thing that went wrong is that leadership was moving.
 func (h *c38Hist) do(kind string, r *vfRng, maxNodes int) string {
-	leader := h.c.Leader(60 * time.Second)
+	for attempt := 0; ; attempt++ {
+		label := h.doOnce(kind, r, maxNodes)
+		if h.aborted == "" || attempt >= 4 || !clu8Transient(errors.New(h.aborted)) || kind == "join-voter" || kind == "join-nonvoter" {
+			return label
+		}
+		h.rep.Count("op-retried:transient-leadership-error")
+		h.aborted = ""
+		time.Sleep(500 * time.Millisecond)
+	}
+}
+
+func (h *c38Hist) doOnce(kind string, r *vfRng, maxNodes int) string {
+	leader := h.c.Leader(90 * time.Second)
 	if leader == nil {
 		h.aborted = "no leader"
 		return ""
@@ -309,6 +341,11 @@ func (h *c38Hist) do(kind string, r *vfRng, maxNodes int) string {
 		if upVoters == 2 {
 			return "" // the other voter alone has no quorum while this one is away
 		}
+		// mirror everything that happened since the last read (an upgraded read appends a command of
+		// its own) so that the model's view of this node is current when it restarts
+		if !h.sync() {
+			return ""
+		}
 		h.c.Stop(leader)
 		if err := h.c.Restart(leader); err != nil {
 			h.aborted = "restart: " + err.Error()
@@ -347,7 +384,7 @@ func (h *c38Hist) do(kind string, r *vfRng, maxNodes int) string {
 			h.aborted = "new node: " + err.Error()
 			return ""
 		}
-		if err, done := h.watch("Join", func() error { return leader.S.Join(joinRequest(n.Name, n.Addr, kind == "join-voter")) }); !done {
+		if err, done := h.watch("Join", func() error { return clu8JoinRetry(h.c, n, kind == "join-voter", 90*time.Second) }); !done {
 			return ""
 		} else if err != nil {
 			h.aborted = "join: " + err.Error()
@@ -454,13 +491,13 @@ func c38RunHistory(t *testing.T, rep *vfReport, r *vfRng, nOps, maxNodes int, sc
 	h.emit("reset", "ok")
 	n0, err := c.NewNode()
 	if err != nil {
-		t.Fatalf("C38 harness: cannot open node: %v", err)
+		clu8Skip("C38 harness: cannot open node: %v", err)
 	}
 	if err := c.Bootstrap(n0); err != nil {
-		t.Fatalf("C38 harness: bootstrap: %v", err)
+		clu8Skip("C38 harness: bootstrap: %v", err)
 	}
 	if err := clu8Exec(n0.S, "CREATE TABLE c38 (id INTEGER NOT NULL PRIMARY KEY)"); err != nil {
-		t.Fatalf("C38 harness: create table: %v", err)
+		clu8Skip("C38 harness: create table: %v", err)
 	}
 	h.hist = append(h.hist, "bootstrap n0; create table")
 	// first linearizable read in the term is upgraded to strong; the second is a real one
@@ -507,14 +544,14 @@ func c38ConcurrentWaiters(t *testing.T, rep *vfReport) {
 	defer c.Close()
 	n0, err := c.NewNode()
 	if err != nil {
-		t.Fatalf("C38 harness: %v", err)
+		clu8Skip("C38 harness: %v", err)
 	}
 	if err := c.Bootstrap(n0); err != nil {
-		t.Fatalf("C38 harness: %v", err)
+		clu8Skip("C38 harness: %v", err)
 	}
 	s := n0.S
 	if err := clu8Exec(s, "CREATE TABLE c38s (x INTEGER)"); err != nil {
-		t.Fatalf("C38 harness: %v", err)
+		clu8Skip("C38 harness: %v", err)
 	}
 	// the first linearizable read of the term is upgraded to a strong read
 	for i := 0; i < 2; i++ {
@@ -586,6 +623,9 @@ func c38ConcurrentWaiters(t *testing.T, rep *vfReport) {
 		rep.Case(fmt.Sprintf("concurrent-waiters|impatient=%s|size=%d", imp, size), imp == "gave-up")
 		rep.Sample(map[string]interface{}{"scenario": "concurrent-waiters", "slow_write_rows": size, "impatient_reader": fmt.Sprintf("%v after %s", impatient.err, impatient.el.Round(time.Millisecond)),
 			"patient_reader": fmt.Sprintf("%v after %s", patient.err, patient.el.Round(time.Millisecond)), "patient_done_after_write_end": time.Since(wEnd).Round(time.Millisecond).String()})
+		if patient.err != nil && !errors.Is(patient.err, ErrWaitForFSMTimeout) {
+			clu8Skip("concurrent waiters: the patient reader failed for another reason: %v", patient.err)
+		}
 		if patient.err != nil {
 			rep.Fail("concurrent-linread-starved-by-other-waiters-timeout",
 				fmt.Sprintf("a slow write (index = commit index) was being applied; reader A (timeout 300 ms) and reader B (timeout 30 s) both waited for it; A gave up (%v), the write finished, and B — on a healthy leader, its index applied — still failed after %s: %v",
@@ -622,14 +662,13 @@ func TestVerifC38(t *testing.T) {
 	guarded := func(nOps int, script []string) {
 		var ops, impl []string
 		ok := false
-		fin, dump := clu8Guard(10*time.Minute, func() { ops, impl, ok = c38RunHistory(t, rep, r, nOps, 3, script) })
-		if !fin {
-			rep.Note("C38: a history did not finish within 10 min and was abandoned; goroutines: %s", dump)
-			rep.Count("histories-abandoned-by-watchdog")
+		if !clu8Case(rep, "history", 10*time.Minute, func() { ops, impl, ok = c38RunHistory(t, rep, r, nOps, 3, script) }) {
 			return
 		}
 		if ok {
 			completed++
+		} else {
+			rep.Count("cases-abandoned") // aborted inside: the cluster could not be kept in the needed state
 		}
 		segOps, segImpl = append(segOps, ops), append(segImpl, impl)
 	}
@@ -643,10 +682,9 @@ func TestVerifC38(t *testing.T) {
 		guarded(nOps, nil)
 		t.Logf("C38 history %d/%d done in %s", i+1, hists, time.Since(t0).Round(time.Second))
 	}
-	if fin, dump := clu8Guard(10*time.Minute, func() { c38ConcurrentWaiters(t, rep) }); !fin {
-		rep.Note("C38: concurrent-waiters scenario abandoned; goroutines: %s", dump)
-	}
+	clu8Case(rep, "concurrent-waiters", 10*time.Minute, func() { c38ConcurrentWaiters(t, rep) })
 	rep.CountN("histories-completed", completed)
+	clu8Floor(t, rep)
 	if completed == 0 {
 		t.Fatalf("C38 harness: no history completed")
 	}
